@@ -127,10 +127,14 @@ def build_jobs(ctx, rng, two_block_sample=2600):
         rng.shuffle(shapes2)
         shapes2 = shapes2[:two_block_sample]
     else:
-        # thorough: all 2-block documents over the rich shape set, plus a seeded sample of 3-block documents
-        shapes3 = [s for s in gen_shapes(ctx, 3, False) if len(s) == 3]
-        rng.shuffle(shapes3)
-        shapes3 = shapes3[:12000]
+        # thorough: all 2-block documents over the rich shape set, plus a seeded sample of 3-block documents. The 3-block
+        # universe [1..3 -> BlockShapes] has more than 10^6 elements (TLC refuses to build such a set): the sample is drawn
+        # from the same universe by picking three of the block shapes TLC enumerated
+        base = [s[0] for s in gen_shapes(ctx, 1, False)]
+        seen3 = set()
+        while len(seen3) < min(12000, len(base) ** 3):
+            seen3.add(tuple(rng.randrange(len(base)) for _ in range(3)))
+        shapes3 = [[base[i] for i in t] for t in sorted(seen3)]
     docs = []
     for k, sh in enumerate(shapes1 + shapes2 + shapes3):
         blocks, nxt = number_blocks(sh, 1)
